@@ -136,31 +136,92 @@ def applyMut (o : Opening) (m : List String) : Option Opening :=
     if x = y then none else some { o with leaves := swapAt o.leaves a b }
   | _ => none
 
-/-- depth and seed of a tree op (`head` in c10.rs) -/
-def head? (t : List String) : Option (Nat × Nat) :=
+/-- seed token: `<seed>` or `<seed>:<pattern>` (`Sd` in c10.rs) -/
+def sd? (s : String) : Option (Nat × String) :=
+  match s.splitOn ":" with
+  | [a] => (u64? a).map (fun n => (n, ""))
+  | a :: rest => (u64? a).map (fun n => (n, ":".intercalate rest))
+  | [] => none
+
+/-- the label of position `i` under a leaf pattern (`label` in c10.rs) -/
+def label? (pat : String) (i n : Nat) : Option Nat :=
+  match pat.splitOn "." with
+  | [""] => some i
+  | ["d"] => some i
+  | ["node"] => some i
+  | ["eq"] => some 0
+  | ["alt"] => some (i % 2)
+  | ["alt2"] => some (i / 2 % 2)
+  | ["half"] => some (i % (max (n / 2) 1))
+  | ["one", k] => do
+    let k ← u64? k
+    if k ≥ n then none else some (if i = k then 1 else 0)
+  | ["run", s0, l] => do
+    let s0 ← u64? s0
+    let l ← u64? l
+    if l < 2 ∨ s0 + l > n then none else some (if i ≥ s0 ∧ i < s0 + l then s0 else i)
+  | _ => none
+
+/-- the leaves of an op line (`leaves_of` in c10.rs) -/
+def leavesOf (n : Nat) (sd : Nat × String) : Option (List Nat) := do
+  let v ← (List.range n).mapM (fun i => (label? sd.2 i n).map (leafOf sd.1))
+  if sd.2 == "node" then
+    let v := if n ≥ 4 then
+        let x := mix (v.getD 0 0) (v.getD 1 0)
+        (v.set 2 x).set 3 x
+      else v
+    let v := if n ≥ 8 then v.set 5 (mix (v.getD 2 0) (v.getD 3 0)) else v
+    let v := if n = 2 then v.set 1 (mix (v.getD 0 0) (v.getD 0 0)) else v
+    some v
+  else some v
+
+/-- depth and seed token of a tree op (`head` in c10.rs) -/
+def head? (t : List String) : Option (Nat × (Nat × String)) :=
   match t with
   | d :: s :: _ => do
     let d ← u64? d
-    let s ← u64? s
+    let s ← sd? s
     if d = 0 ∨ d > 13 ∨ d ≥ 4294967296 then none else some (d, s)
   | _ => none
 
-def mkTree (depth seed : Nat) : Res (Tree Nat) :=
-  Tree.new toy ((List.range (2 ^ depth)).map (leafOf seed))
+def mkTree (depth : Nat) (sd : Nat × String) : Res (Tree Nat) :=
+  match leavesOf (2 ^ depth) sd with
+  | some leaves => Tree.new toy leaves
+  | none => .panic "bad pattern"
 
 def handleNew (t : List String) : String :=
   match t with
   | n :: s :: _ =>
-    match u64? n, u64? s with
+    match u64? n, sd? s with
     | some n, some s =>
       if n > 8192 then "bad-op"
       else
-        match Tree.new toy ((List.range n).map (leafOf s)) with
-        | .ok tr => s!"ok root={digStr tr.root} depth={tr.depth}"
-        | .err e => "err:" ++ kindStr e
-        | .panic _ => "panic"
+        match leavesOf n s with
+        | none => "bad-op"
+        | some leaves =>
+          match Tree.new toy leaves with
+          | .ok tr => s!"ok root={digStr tr.root} depth={tr.depth}"
+          | .err e => "err:" ++ kindStr e
+          | .panic _ => "panic"
     | _, _ => "bad-op"
   | _ => "bad-op"
+
+/-- `tree`: the root and the checksum of the paths of all (or 256 evenly spaced) positions -/
+def handleTree (t : List String) : String :=
+  match head? t with
+  | none => "bad-op"
+  | some (depth, sd) =>
+    match mkTree depth sd with
+    | .ok tr =>
+      let n := 2 ^ depth
+      let step := if n ≤ 256 then 1 else n / 256
+      let idxs := (List.range (n / step)).map (· * step)
+      let h := idxs.foldl (fun h i =>
+        match prove tr i with
+        | .ok path => cksList h path
+        | _ => h) cks0
+      s!"root={digStr tr.root} h={h}"
+    | _ => "bad-op"
 
 def handleSingle (t : List String) : String :=
   match head? t, t with
@@ -292,6 +353,7 @@ def handle (toks : List String) : String :=
       | "batch" => handleBatch rest
       | "paths" => handlePaths rest
       | "ser" => handleSer rest
+      | "tree" => handleTree rest
       | _ => "bad-op"
   | _ => "bad-op"
 
